@@ -23,7 +23,8 @@ RULE = ("one case = one generated history (6-45 operations: color/on/off/remove_
         "instants are biased into running fades, onto fade ends (+-1 ms) and onto pending loop timers (software-"
         "fade / batch ticks, fade-out removal delays). A case is non-trivial when it reached a reach probe; "
         "distinct = distinct sequence of observed event kinds")
-PROBES = ["cmd_inside_fade", "cmd_at_fade_end", "cmd_on_timer", "instant_during_sw_fade", "instant_during_batch_fade",
+PROBES = ["hw_check_midrun_direct", "hw_check_midrun_hwfade", "hw_check_midrun_software", "hw_check_midrun_batch",
+          "cmd_inside_fade", "cmd_at_fade_end", "cmd_on_timer", "instant_during_sw_fade", "instant_during_batch_fade",
           "fade_over_lower_prio_greater_key", "priority_tie", "replace_key", "ignored_lower_prio_same_key",
           "remove_with_fade", "remove_fading_out_key", "remove_under_opaque", "readd_during_fadeout",
           "fadeout_over_running_fade", "fade_from_running_fade", "clear_with_entries", "lp_event", "lp_stop",
@@ -57,6 +58,8 @@ LIGHTS = {
     "d_fade": {"be": "direct", "ch": [("red", "led-5-r"), ("green", "led-5-g"), ("blue", "led-5-b")], "fade": 150},
     "d_rgbw": {"be": "direct", "ch": [("red", "led-10"), ("green", "led-11"), ("blue", "led-12"),
                                       ("white", "led-13")], "on": (192, 192, 192)},
+    "h_rgb": {"be": "hwfade", "ch": [("red", "hwfade-20-r"), ("green", "hwfade-20-g"), ("blue", "hwfade-20-b")]},
+    "h_w": {"be": "hwfade", "ch": [("white", "hwfade-21")], "on": (224, 224, 224)},
     "s_w1": {"be": "software", "ch": [("white", "c_l1")]},
     "s_w2": {"be": "software", "ch": [("white", "c_l2")], "on": (128, 128, 128), "prof": True},
     "s_rgb": {"be": "software", "ch": [("red", "c_r"), ("green", "c_g"), ("blue", "c_b")]},
@@ -68,7 +71,8 @@ LIGHTS = {
     "b_rgb2": {"be": "batch", "ch": [("red", "1-0"), ("green", "1-1"), ("blue", "1-2")], "prof": True},
 }
 LIGHT_NAMES = list(LIGHTS)
-BY_BACKEND = {be: [n for n in LIGHT_NAMES if LIGHTS[n]["be"] == be] for be in ("direct", "software", "batch")}
+BACKENDS = ("direct", "hwfade", "software", "batch")
+BY_BACKEND = {be: [n for n in LIGHT_NAMES if LIGHTS[n]["be"] == be] for be in BACKENDS}
 MODE_PRIO = {"_global": 0, "m1": 100, "m2": 200}
 
 COLORS = [(255, 255, 255), (0, 0, 0), (255, 0, 0), (0, 255, 0), (0, 0, 255), (128, 128, 128), (10, 200, 90),
@@ -136,10 +140,11 @@ def plan(ch, tier):
         "batch": {"max_fade_ms": ch.pick("b_maxfade", [0, 0, 100, 40960]),
                   "max_batch_size": ch.pick("b_size", [64, 64, 2, 4]),
                   "cb_yield": ch.weighted("b_yield", [(None, 5), (0.0, 1), (0.003, 1)])},
+        "hwfade_max_ms": ch.pick("hwfade_max", [100, 20, 1000]),
     }
     # active lights: 1-4, at least one backend drawn first so that all backends get equal attention
     active = []
-    first_be = ch.pick("be0", ["direct", "software", "batch"])
+    first_be = ch.pick("be0", ["direct", "software", "batch", "hwfade", "software", "batch"])
     active.append(ch.pick("l0", BY_BACKEND[first_be]))
     for _ in range(ch.choice("nactive", 4)):
         n = ch.pick("lN", LIGHT_NAMES)
@@ -167,6 +172,9 @@ def plan(ch, tier):
         elif kind == "remove":
             op["key"] = ch.pick("key", KEYS + ["_global.light_player", "m1.light_player"])
             op["fade"] = ch.pick("fade", FADES)
+        if kind in ("color", "off", "remove") and ch.flag("live_key", 0.6 if kind == "remove" else 0.25):
+            # resolved at run time: the n-th key that is in the light's stack right now (if any)
+            op["live_key"] = ch.choice("live_key_idx", 4)
         elif kind == "lp":
             op["event"] = ch.pick("lp_event", lp_events)
         elif kind == "mode":
@@ -202,7 +210,8 @@ def execute(ctx, plan):    # noqa: C901  pylint: disable=too-many-statements,too
     cfg = plan["cfg"]
     bp = cfg["batch"]
     BatchSimPlatform.PARAMS = {"update_hz": cfg["hz"], "max_batch_size": bp["max_batch_size"],
-                               "max_fade_ms": bp["max_fade_ms"], "cb_yield": bp["cb_yield"]}
+                               "max_fade_ms": bp["max_fade_ms"], "cb_yield": bp["cb_yield"],
+                               "hwfade_max_ms": cfg["hwfade_max_ms"]}
     prof_params = PROFILES[cfg["profile"]]
     patches = {
         "mpf": {"platforms": {"simc09": "checks._c09_helpers.BatchSimPlatform"},
@@ -396,7 +405,7 @@ def execute(ctx, plan):    # noqa: C901  pylint: disable=too-many-statements,too
             if last["op"] == "enable":
                 return last["hold_power"]
             return ("unexpected driver command", last["op"])
-        st = hw.batch_state.get(chan)
+        st = hw.hwfade_state.get(chan) if be == "hwfade" else hw.batch_state.get(chan)
         if st is None:
             return 0.0
         b, fade_ms, t = st
@@ -404,9 +413,30 @@ def execute(ctx, plan):    # noqa: C901  pylint: disable=too-many-statements,too
             return ("hardware fade still running", b, fade_ms, t)
         return b
 
-    def check_hw(where):
+    def hw_settled(name, now):
+        """Mid-run: has this light been quiet long enough that its hardware must show the final colour?
+        direct/hwfade channels are commanded synchronously; software-fade and batched channels get one tick more.
+        Not judged at an instant the loop reached through a stall (ticks that became due meanwhile are still
+        being processed at that very instant)."""
+        be = LIGHTS[name]["be"]
+        quiet_since = max(models[name].last_fade_end(0.0), last_change.get(name, 0.0))
+        if be == "direct":
+            return quiet_since <= now
+        if loop.stall_log and abs(loop.stall_log[-1][1] - now) <= 1e-9:
+            return False
+        if be == "hwfade":
+            return quiet_since + cfg["hwfade_max_ms"] / 1000.0 + 0.002 < now
+        if be == "software":
+            return quiet_since + interval + 1e-6 < now
+        return quiet_since + 4 * interval + 0.01 + (bp["cb_yield"] or 0.0) * 20 < now
+
+    def check_hw(where, only_settled=False):
         now = loop.time()
         for name, d in LIGHTS.items():
+            if only_settled:
+                if not hw_settled(name, now):
+                    continue
+                ctx.probe("hw_check_midrun_" + d["be"])
             ev = models[name].color_at(now)
             assert ev.kind in ("static", "off"), (name, ev.kind, models[name].describe(), now)
             logical = tuple(int(round(x)) for x in ev.color)
@@ -463,6 +493,11 @@ def execute(ctx, plan):    # noqa: C901  pylint: disable=too-many-statements,too
 
     hw.light_listeners.append(light_listener)
 
+    def hwfade_listener(rec):
+        ctx.log("hwfade", rec["num"], round(rec["brightness"], 6), rec["fade_ms"], t=rec["t"])
+
+    hw.hwfade_listeners.append(hwfade_listener)
+
     # -- operations ------------------------------------------------------------------------------------
     def lp_context(event):
         for c, sec in plan["lp"].items():
@@ -506,6 +541,11 @@ def execute(ctx, plan):    # noqa: C901  pylint: disable=too-many-statements,too
         if name is not None:
             check_logical(name, "before " + kind)
             dev = m.lights[name]
+            if "live_key" in op:
+                ks = sorted(models[name].keys(now))
+                if ks:
+                    op = dict(op, key=ks[op["live_key"] % len(ks)])
+                    ctx.log("live_key", op["key"], t=now)
         if kind == "color":
             col = op["color"]
             arg = [list(col), _hex(col), RGBColor(col)][op["form"]]
@@ -548,6 +588,7 @@ def execute(ctx, plan):    # noqa: C901  pylint: disable=too-many-statements,too
         elif kind == "sample":
             for nm in LIGHT_NAMES:
                 check_logical(nm, "sample")
+            check_hw("sample", only_settled=True)
         elif kind == "lp":
             expect_lp(op["event"])
             sim.post(op["event"])
@@ -584,7 +625,8 @@ def execute(ctx, plan):    # noqa: C901  pylint: disable=too-many-statements,too
             t = now + w[1]
         elif w[0] in ("fade", "end"):
             pref = models[op["light"]].running(now) if op.get("light") else []
-            fades = pref or sorted(f for nm in plan["active"] for f in models[nm].running(now))
+            fades = (pref or sorted(f for nm in plan["active"] for f in models[nm].running(now)) or
+                     sorted(f for nm in LIGHT_NAMES for f in models[nm].running(now)))
             if fades:
                 s, e = fades[w[1] % len(fades)]
                 if w[0] == "fade":
